@@ -9,6 +9,7 @@ import AferoVerif.Engine.MemFs
 import AferoVerif.Engine.RoFs
 import AferoVerif.Engine.CowFs
 import AferoVerif.Engine.BpFs
+import AferoVerif.Engine.ReFs
 open AferoVerif
 
 partial def loop {σ : Type} (h : IO.FS.Stream) (out : IO.FS.Stream) (step : σ → String → σ × String) (s : σ) : IO Unit := do
@@ -30,4 +31,5 @@ def main (args : List String) : IO UInt32 := do
   | ["rofs"] => loop stdin stdout Engine.RoFs.stepLine {}; return 0
   | ["cowfs"] => loop stdin stdout Engine.CowFs.stepLine {}; return 0
   | ["bpfs"] => loop stdin stdout Engine.BpFs.stepLine {}; return 0
+  | ["refs"] => loop stdin stdout Engine.ReFs.stepLine {}; return 0
   | _ => IO.eprintln "usage: driver <engine>"; return 2
